@@ -445,10 +445,13 @@ async def _interp(run: Run, sdef: dict, ctx: Context, ev: Any, rn: int, inv: Any
                 if sk == "same":  # the item is re-dispatched with its k (a handler: the k of the failed invocation's input)
                     sk = getattr(ev.input_event if isinstance(ev, StepFailedEvent) else ev, "k", None)
                 sent = ET.mk(act[1], run.fresh(), sk)
-            run.trace.steps.append(("sent", name, uid, rn, asyncio.get_event_loop().time(),
-                                    {"new_uid": sent.uid, "ty": act[1], "target": act[2], "inv": inv if inv is not None else uid,
-                                     "wid": _worker_id_of(run, name, ev), "obj": sent}))
-            ctx.send_event(sent, step=act[2])
+            # ["send", ty, target, k, times]: the very same event OBJECT is handed to ctx.send_event `times` times (a body that
+            # re-sends one object, or fans one object out in a loop): every delivery is an invocation of its own
+            for _rep in range(int(act[4]) if len(act) > 4 and act[4] else 1):
+                run.trace.steps.append(("sent", name, uid, rn, asyncio.get_event_loop().time(),
+                                        {"new_uid": sent.uid, "ty": act[1], "target": act[2], "inv": inv if inv is not None else uid,
+                                         "wid": _worker_id_of(run, name, ev), "obj": sent}))
+                ctx.send_event(sent, step=act[2])
         elif op == "stream":
             ctx.write_event_to_stream(ET.mk(act[1], run.fresh(), None))
         elif op == "fail_until":
@@ -872,7 +875,9 @@ def _do_external(run: Run, ext: dict, loop: VLoop) -> None:
     op = ext["op"]
     if op == "send":
         try:
-            h.ctx.send_event(ET.mk(ext["ty"], run.fresh(), ext.get("k")), step=ext.get("step"))
+            xev = ET.mk(ext["ty"], run.fresh(), ext.get("k"))
+            for _rep in range(int(ext.get("times") or 1)):  # "times": the same object sent again (see the script op "send")
+                h.ctx.send_event(xev, step=ext.get("step"))
         except WorkflowRuntimeError as e:
             run.trace.notes.append(f"external send rejected: {e}")
     elif op == "cancel":
